@@ -59,7 +59,7 @@ Record cst : Type := mkcst {
   c_screen : Z * Z;                  (* client->screen.width/height as last announced by ExtendedDesktopSize, (0,0) = none *)
   c_reqrs : bool;                    (* client->requestedResize: a SetDesktopSize is pending, update requests are withheld *)
   c_zrlez : bool;                    (* the SERVER's ZRLE deflate stream (5) has been started (= the client's own ZRLE inflate
-                                        stream is initialised, with fix 11 = notes/fix_C07_3.diff) *)
+                                        stream is initialised, with fix 11 = 9fe693e) *)
   c_zlibz : bool                     (* the SERVER's Zlib deflate stream (0) has been started *)
 }.
 
@@ -96,7 +96,9 @@ Inductive res (A : Type) : Type :=
 | Ok (a : A) (s : cst) (ts : list tok)
 | Fail                 (* the library function returns FALSE *)
 | More                 (* the stream is exhausted inside a message (blocking read / EOF -> FALSE) *)
-| Desync               (* a compressed block where plain bytes are expected or vice versa: no prediction *)
+| Desync (cause : Z) (rest : list tok)   (* no prediction: the token at the head of [rest] is not of the kind the client reads here
+                            (1: plain bytes expected, 2: deflate block expected, 3: LZO block expected), 4: the deflate block just
+                            consumed belongs to another stream / contradicts the stream history, 5: Tight JPEG *)
 | Oob (code : Z).      (* the mirrored C path performs an out-of-bounds access *)
 Arguments Ok {A}. Arguments Fail {A}. Arguments More {A}. Arguments Desync {A}. Arguments Oob {A}.
 
@@ -105,12 +107,13 @@ Definition ret {A} (a : A) : M A := fun s ts => Ok a s ts.
 Definition bind {A B} (m : M A) (k : A -> M B) : M B :=
   fun s ts => match m s ts with
               | Ok a s' ts' => k a s' ts'
-              | Fail => Fail | More => More | Desync => Desync | Oob c => Oob c
+              | Fail => Fail | More => More | Desync c r => Desync c r | Oob c => Oob c
               end.
 Notation "x <- m ;; k" := (bind m (fun x => k)) (at level 61, m at next level, right associativity).
 Notation "m ;;; k" := (bind m (fun _ => k)) (at level 61, right associativity).
 Definition failM {A} : M A := fun _ _ => Fail.
 Definition oobM {A} (c : Z) : M A := fun _ _ => Oob c.
+Definition desyncM {A} (c : Z) : M A := fun _ ts => Desync c ts.
 Definition get_st : M cst := fun s ts => Ok s s ts.
 Definition put_st (s' : cst) : M unit := fun _ ts => Ok tt s' ts.
 Definition upd_st (f : cst -> cst) : M unit := fun s ts => Ok tt (f s) ts.
@@ -118,7 +121,7 @@ Definition log_ev (e : event) : M unit := upd_st (fun s => add_ev s e).
 Definition send (bs : list Z) : M unit := upd_st (fun s => add_out s bs).
 
 (* ---------------------------------------------------------------- reading plain bytes (ReadFromRFBServer) *)
-Inductive tk (A : Type) : Type := TkOk (a : A) (ts : list tok) | TkMore | TkDesync.
+Inductive tk (A : Type) : Type := TkOk (a : A) (ts : list tok) | TkMore | TkDesync (rest : list tok).
 Arguments TkOk {A}. Arguments TkMore {A}. Arguments TkDesync {A}.
 
 (* the first n tokens must be plain bytes; structural on the token list, n counts down in Z
@@ -131,9 +134,9 @@ Fixpoint take_bytes (ts : list tok) (n : Z) : tk (list Z) :=
       match t with
       | TB b => match take_bytes ts' (n - 1) with
                 | TkOk l r => TkOk (b mod 256 :: l) r
-                | TkMore => TkMore | TkDesync => TkDesync
+                | TkMore => TkMore | TkDesync r => TkDesync r
                 end
-      | _ => TkDesync
+      | _ => TkDesync ts
       end
   end.
 
@@ -143,7 +146,7 @@ Definition rd (n : Z) : M (list Z) := fun s ts =>
   match take_bytes ts n with
   | TkOk l r => Ok l s r
   | TkMore => More
-  | TkDesync => Desync
+  | TkDesync r => Desync 1 r
   end.
 
 (* read into a scratch buffer of [cap] bytes *)
@@ -180,13 +183,13 @@ Definition rd_zblock : M (Z * bool * bool * list Z) := fun s ts =>
   match ts with
   | [] => More
   | TZ sid fresh ok data :: r => Ok (sid, fresh, ok, map (fun b => b mod 256) data) s r
-  | _ :: _ => Desync
+  | _ :: _ => Desync 2 ts
   end.
 Definition rd_lblock : M (list Z) := fun s ts =>
   match ts with
   | [] => More
   | TL data :: r => Ok (map (fun b => b mod 256) data) s r
-  | _ :: _ => Desync
+  | _ :: _ => Desync 3 ts
   end.
 
 (* ---------------------------------------------------------------- framebuffer primitives *)
